@@ -38,7 +38,7 @@ CLAIMS = {
          "PARTIAL: erase with a tail on non-trivial lists (known finding), a no-duplicates statement over the whole event log, and copy/move assignment between vectors are decided by the correspondence: registry of live instrumented objects (overlap, double construction/destruction, clobbered shadow bytes), event streams vs model, relocation-through-constructor oracle.",
          "5 C06"),
  "C07": ("proof (ledger automaton invariant over histories) + correspondence with a ledger allocator",
-         "Theorem C07_whole_life_balanced: construction, ANY history, destruction leaves the allocation ledger empty (trivially relocatable lists); C07_destroy_returns_everything for every list. "
+         "Theorem C07_whole_life_balanced(_every_list): construction, ANY history, destruction leaves the allocation ledger empty - for EVERY parameter list and EVERY operation, erase with a tail on non-trivial lists included (NtLedger.v); C07_step_balanced(_every_list); C07_destroy_returns_everything for every list. "
          "Tie: every allocate/deallocate of the implementation (identity, unit size, count, block) vs the model's, guard zones, leak oracle at the end of every script, special-member histories over 6 (quick) / 32 (thorough) allocator kinds.",
          "5 C07"),
  "C08": ("proof (case analysis over allocator traits on the world model) + correspondence over allocator kinds",
@@ -51,7 +51,7 @@ CLAIMS = {
          "Theorems C10_reserve_keeps_contents (Rep preserved, capacity = max, fixed sizes kept) and C10_reserve_within_capacity_is_noop. The promise 'n elements / b bytes then fit': C10_reserve_reestablishes_the_budget and C10_after_reserve_everything_fits (history invariant of C02: after a growing reserve(n, b) any valid history up to n elements / b bytes keeps every element inside the new block; trivially relocatable lists with benign tail; known finding for the other lists). Tie: histories with reserve at every fill level; reserve-then-fill-to-the-limits under guard zones.",
          "5 C10"),
  "C16": ("proof (event and address lemmas on the model) + correspondence with ledger allocator",
-         "Theorems C16_*: emplace_back/pop_back/clear never call the allocator and keep the block (every list); erase likewise (trivially relocatable lists); reserve within capacity is the identity; stored elements keep their addresses; swap exchanges blocks. "
+         "Theorems C16_*: emplace_back/pop_back/clear never call the allocator and keep the block (every list); erase and erase(first,last) likewise (every list, C16_erase(_range)_no_allocation_every_list); reserve within capacity is the identity; stored elements keep their addresses; swap exchanges blocks. "
          "Tie: per-step allocation events, block ids and object offsets before/after each operation, incl. swap and move construction.",
          "5 C16"),
  "C18": ("proof (empty-state invariant zero_inv, refinement from the empty state) + correspondence on an empty-state script family",
